@@ -1,5 +1,7 @@
 """C04 - every Python binding forwards to the declared C++ entity, faithfully (Engine E)."""
 from .. import rules_pybind as RP
+from .. import rules_alias as RA
+from .. import rules_inst as RI
 
 ID = "C04"
 EXPLANATION = (
@@ -8,13 +10,13 @@ EXPLANATION = (
     "lambda / registration for all inputs. B1: in each emitter the lambda's parameter list, the call's "
     "argument list and the py::arg list are projections of one argument list, never sliced, filtered or "
     "re-ordered, through helpers that emit one element per argument in order. B2: name and default of one "
-    "py::arg entry come from the same argument and the default is emitted iff there is one. B3: for methods "
+    "py::arg entry come from the same argument and the default is emitted iff there is one. Default-value text is never passed through a string method before it is emitted. B3: for methods "
     "vs static methods the three choices def/def_static, self->/Class:: and presence of the self parameter "
     "are evaluated abstractly on both kinds and must agree. B4: `return` is emitted iff the return type is "
     "not void (is_void = first type void and no second type). B5: def_readonly iff the property type is "
     "const. B6: enumerators, base class, callee spelling (to_cpp) and namespace qualification are bound from "
     "the same entity. B7: unary operators emit one py::self operand, binary two; []/() bind "
-    "__getitem__/__call__. That the *compiled* binding calls the intended overload, that defaults evaluate "
+    "__getitem__/__call__. B8: the types a binding spells are produced by the substitution primitives on private copies (C02/S1, C13/P1 re-run), so one instantiation's binding cannot carry another's types. That the *compiled* binding calls the intended overload, that defaults evaluate "
     "as intended, and operator semantics are behaviour of the emitted program and are not decided.")
 ASSUMPTIONS = ["str.format / f-string semantics on constant templates", "pybind11 itself is trusted"]
 
@@ -22,8 +24,14 @@ ASSUMPTIONS = ["str.format / f-string semantics on constant templates", "pybind1
 def run(ctx, rep):
     rep.run(RP.rule_one_argument_list, ctx, rep, "B1", min_emitters=4)
     rep.run(RP.rule_default_on_own_parameter, ctx, rep, "B2")
+    rep.run(RP.rule_default_text_verbatim, ctx, rep, "B2")
     rep.run(RP.rule_receiver_consistency, ctx, rep, "B3")
     rep.run(RP.rule_return_polarity, ctx, rep, "B4")
     rep.run(RP.rule_property_polarity, ctx, rep, "B5")
     rep.run(RP.rule_same_entity, ctx, rep, "B6")
     rep.run(RP.rule_operator_shape, ctx, rep, "B7")
+    # B8: the declared types a binding spells are those of *its* instantiation: exact substitution (C02/S1)
+    # applied to private copies (C13/P1)
+    rep.run(RI.rule_coverage, ctx, rep, "B8", min_sites=10)
+    rep.run(RA.rule_mutate_only_fresh, ctx, rep, "B8", "gtwrap/template_instantiator",
+            {"instantiate_namespace": "documented in/out parameter"}, min_sites=20)
